@@ -143,9 +143,28 @@ def paths(fn, max_paths=4000, max_loop=1):
                 name = show(atom_for(bb, t))
                 neg = False
             is_bool = t.get("dty") == "bool"
+            cmp_const = None
+            if is_bool and not neg:
+                d_ = atom_for(bb, t) if sym is None else None
+                if d_ is None and sym is not None:
+                    # rebuild the structured expression behind the boolean local
+                    try:
+                        d_ = norm(ex.operand(t["discr"], (bb, None)))
+                    except Exception:
+                        d_ = None
+                if d_ is not None and d_[0] == "bin" and d_[1] in ("Eq", "Ne"):
+                    for x_, c_ in ((d_[2], d_[3]), (d_[3], d_[2])):
+                        if c_[0] == "const" and isinstance(c_[2], int) and x_[0] != "const":
+                            cmp_const = (show(x_), c_[2], d_[1])
+                            break
             # previous decision on the same atom?
             last_iter = max([i for i, (a, v) in enumerate(decisions) if a == "#iter"] + [-1])
-            prev = [v for (a, v) in decisions[last_iter + 1:] if a == name]
+            prev = [v for (a, v) in decisions[last_iter + 1:] if a == (cmp_const[0] if cmp_const else name)]
+            if cmp_const is not None:
+                # translate earlier decisions on x into the boolean this comparison would take
+                prev = [(1 if (pv == cmp_const[1]) == (cmp_const[2] == "Eq") else 0) if not isinstance(pv, tuple) else
+                        ((0 if cmp_const[2] == "Eq" else 1) if cmp_const[1] in pv[1] else None) for pv in prev]
+                prev = [pv for pv in prev if pv is not None]
             for v, b in targets + [("other", other)]:
                 if v == "other":
                     val = ("not-in", tuple(x for x, _ in targets))
@@ -160,6 +179,12 @@ def paths(fn, max_paths=4000, max_loop=1):
                     val = v
                 if is_bool and neg and val in (0, 1):
                     val = 1 - val
+                dname = name
+                if cmp_const is not None and val in (0, 1):
+                    # `x == c` true  <=> decision (x, c);  false <=> (x, not-in (c,))
+                    eq = (val == 1) if cmp_const[2] == "Eq" else (val == 0)
+                    dname = cmp_const[0]
+                    val = cmp_const[1] if eq else ("not-in", (cmp_const[1],))
                 if prev and prev[-1] != val:
                     # contradicts an earlier decision on this atom along the path
                     if not (isinstance(prev[-1], tuple) or isinstance(val, tuple)) or \
@@ -172,7 +197,7 @@ def paths(fn, max_paths=4000, max_loop=1):
                 tb = fn.term(b)
                 if tb is not None and tb["k"] == "unreachable":
                     continue
-                _follow(bb, b, env, decisions + [(name, val)], effects, lastret, blocks, loopcount)
+                _follow(bb, b, env, decisions + [(dname, val)], effects, lastret, blocks, loopcount)
             return
         elif t["k"] in ("goto", "drop", "assert"):
             nxt = [t["target"]]
